@@ -9,10 +9,10 @@ ID = 'C02'
 LEAN_MODULE = 'PncProofs.C02'
 LEAN_FILE = 'PncProofs/C02.lean'
 NAMESPACE = 'Props.C02'
-LEAN_CONE = ['PncModel.Arr', 'PncModel.File', 'PncProofs.ArrLemmas', 'PncProofs.C02']
-LEMMA_FILES = ['PncProofs/ArrLemmas.lean']
+LEAN_CONE = ['PncModel.Arr', 'PncModel.File', 'PncProofs.ArrLemmas', 'PncProofs.ZipLemmas', 'PncProofs.C02']
+LEMMA_FILES = ['PncProofs/ArrLemmas.lean', 'PncProofs/ZipLemmas.lean']
 REQUIRED_THEOREMS = ['orth_get', 'orth_shape', 'orth_full_id', 'normInt_lt', 'sliceIndices_lt', 'indices_lt',
-                     'int_keeps_unit_axis']
+                     'int_keeps_unit_axis', 'zip_get', 'zip_shape']
 RULE = ('[integers given as python ints or numpy integers; a fixed-width string variable (S8 / U8) along one dimension in a quarter of the cases] ' +
         'random files (1-5 dimensions incl. length-1 and unlimited, 1-6 variables of rank 0-4 over different '
         'dimension subsets and orders, coordinate variables, masked and unmasked, int/float dtypes, distinct '
@@ -163,9 +163,28 @@ def _ioapi_case(rng):
         [rng.choice(['slice', 'slice2', 'slicerc', 'slicet', 'slicet'])] + [rng.randrange(1 << 20) for _ in range(6)]]))
 
 
+def _repeat_case(rng):
+    """a variable that carries one dimension on two axes (a covariance or transition matrix), the dimension selected by an
+    integer, a slice or ONE index list: the selection applies to each of the axes"""
+    while True:
+        spec = pfile.gen_file(rng, ndims=rng.randint(2, 3), minlen=2, len1_prob=0.0, scalar_prob=0.0)
+        dl = {d[0]: d[1] for d in spec['dims']}
+        names = list(dl)
+        d = rng.choice(names)
+        vd = rng.choice([[d, d], [d, rng.choice([n for n in names if n != d]), d], [rng.choice([n for n in names if n != d]), d, d]])
+        spec['vars'].append(pfile._mkvar(rng, 'COV', vd, dl, 7, rng.random() < 0.3))
+        sels = [[d, _sel(rng, dl[d], rng.choice(['list', 'list', 'slice', 'int']))]]
+        other = [n for n in names if n != d]
+        if other and rng.random() < 0.4:
+            n = rng.choice(other)
+            sels.append([n, _sel(rng, dl[n], rng.choice(['slice', 'int']))])
+        return dict(spec=spec, sels=sels)
+
+
 def gen(rng, tier):
     n = 400 if tier == 'quick' else 12000
     out = [_case(rng, malformed=(i % 10 == 9)) for i in range(n)]
+    out += [_repeat_case(rng) for _ in range(n // 10)]
     out += [_mixed_case(rng) for _ in range(n // 8)]
     out += [_npint_case(rng) for _ in range(n // 10)]
     out += [_legacy_case(rng) for _ in range(n // 8)]
